@@ -317,3 +317,5 @@ func pruneStopArms(fn *ssa.Function) func(*ssa.BasicBlock, int) bool {
 	}
 	return func(b *ssa.BasicBlock, s int) bool { return !cut[edge{b, s}] }
 }
+
+func ptrTo(t *ssa.Type) types.Type { return types.NewPointer(t.Type()) }
